@@ -29,7 +29,7 @@ ASSUMPTIONS = ['ref/bind.py conflict rules; resource/resource pairs across level
 
 PHASES = B.PHASES
 PROVIDES_ATTR = B.PROVIDES_ATTR
-NAMES = ('a',) + B.RESERVED
+NAMES = ('a',) + B.RESERVED + B.UNDELIVERABLE
 
 
 def deadline_passed():
@@ -91,12 +91,12 @@ def injections(cfg):
     """(label, mutated cfg)"""
     srcs = sources_of(cfg)
     for name in NAMES:
-        reserved = name in B.RESERVED
+        reserved = name in B.RESERVED + B.UNDELIVERABLE
         if reserved:
             for s in srcs:
                 c = copy.deepcopy(cfg)
                 inject(c, name, s)
-                yield ('reserved:%s:%s' % (name if name in ('next', 'context') else 'builtin', s[0]), c)
+                yield ('reserved:%s:%s' % (name if name in ('next', 'context') + B.UNDELIVERABLE else 'builtin', s[0]), c)
         else:
             for s1, s2 in itertools.combinations_with_replacement(srcs, 2):
                 if s1 == s2 and s1[0] != 'mw':
